@@ -59,8 +59,9 @@ NumIs(tok, canon) == IsNumeric(tok) /\ RoundTo6(NumCanon(tok)) = canon
 
 FileVerdict(t) ==
     LET v == t.v
-        N == Len(t.parts)
-        E == [i \in 1..N |-> RC!ExportP(t.parts[i], t.fmt)]
+        live == RC!ApplyHist(t.parts, t.hist)          \* the list after the operations performed before the export
+        N == Len(live)
+        E == [i \in 1..N |-> RC!ExportP(live[i], t.fmt)]
         P == Parse(t.lines)
         twoBlocks == t.optics /\ v >= 31
         pb == IF twoBlocks THEN 2 ELSE 1
@@ -72,7 +73,7 @@ FileVerdict(t) ==
                       \/ \E k \in 1..3 : ~NumIs(Cell(i, OriginCols(v)[k]), ZeroCanon)
                       \/ LET q == [k \in 1..3 |-> Quarter(Cell(i, AngleCols[k]))]
                          IN  \/ \E k \in 1..3 : q[k] < 0
-                             \/ RC!Mul(RC!FromZYZi(q[1], q[2], q[3]), RC!Rot(t.parts[i])) # RC!Id}
+                             \/ RC!Mul(RC!FromZYZi(q[1], q[2], q[3]), RC!Rot(live[i])) # RC!Id}
         BadIdent == {i \in 1..N :
                       \/ ~NumIs(Cell(i, "rlnClassNumber"), IntCanonE(E[i].cls, 0))
                       \/ IF t.fmt.named THEN Cell(i, TomoCol(v)) # E[i].tomoName \/ Cell(i, PartCol(v)) # E[i].partName
@@ -80,9 +81,9 @@ FileVerdict(t) ==
         BadHalf == {i \in 1..N : ~NumIs(Cell(i, "rlnRandomSubset"), IntCanonE(E[i].subset, 0))}
         L == t.loaded
         BadBack == {i \in 1..N :
-                      \/ L.rows[i].x # RC!Complete(t.parts[i]) \/ L.rows[i].s # <<0, 0, 0>>
-                      \/ L.rows[i].R # RC!Code(RC!Rot(t.parts[i]))
-                      \/ L.rows[i].tomo # t.parts[i].tomo \/ L.rows[i].cls # t.parts[i].cls \/ L.rows[i].geom3 # t.parts[i].sid}
+                      \/ L.rows[i].x # RC!Complete(live[i]) \/ L.rows[i].s # <<0, 0, 0>>
+                      \/ L.rows[i].R # RC!Code(RC!Rot(live[i]))
+                      \/ L.rows[i].tomo # live[i].tomo \/ L.rows[i].cls # live[i].cls \/ L.rows[i].geom3 # live[i].sid}
     IN  IF ~P.ok \/ Len(P.blocks) # pb THEN <<"C03_FileWellFormed", 0>>
         ELSE IF blk.name # t.spell[ParticleBlock(v)] \/ (twoBlocks /\ P.blocks[1].name # t.spell["data_optics"])
              THEN <<"C03_FileBlocks", 0>>
